@@ -133,6 +133,19 @@ def judge_trace(rec, events, ctx):
     bad = [(e, f) for e, f in events if FINAL_NAME.match(f) and ("CREATE" in e or "MODIFY" in e)]
     rec.check("final_name_published_only_by_rename", not bad,
               dict(ctx, in_place_events=bad[:6], trace=events[:40]), key="C18/final-name-written-in-place")
+    # once a complete library has been published under its final name, that name stays occupied: another process may be
+    # about to open it (a process that found the name, or built it itself, opens it later)
+    gone = []
+    present = set()
+    for e, f in events:
+        if FINAL_NAME.match(f):
+            if "MOVED_TO" in e:
+                present.add(f)
+            elif "DELETE" in e and f in present:
+                gone.append((e, f))
+    rec.check("published_library_stays_in_place", not gone,
+              dict(ctx, removed=gone[:4], trace=[ev for ev in events if FINAL_NAME.match(ev[1])][:20]),
+              key="C18/published-library-removed")
     rec.count("inotify_events", len(events))
     if any("MOVED_TO" in e and FINAL_NAME.match(f) for e, f in events):
         rec.bucket("publish:rename_observed")
